@@ -3,15 +3,92 @@ import numpy as np
 from lib import common as C, models as M
 
 GEN = ['BlockFacts']
+IMPORTS = ['C03/basis_product', 'C03/mul_den', 'C03/rs_matrix_den', 'C03/rmatmul_den', 'C03/add_den', 'C03/dense_add_den', 'C14/compose_is_block_product', 'C14/apply_is_block_matvec', 'C14/pack_unpack_index']
 TRUSTED = ['numpy.linalg.solve / scipy lu_solve deliver the inverse of the packed target-unknown Jacobian (hypothesis H_U Hinv = 1 of the theorem)',
            'chain rule along the DAG (C04), container algebra (C14)']
-ASSUMPTIONS = ['no executable correspondence: the tie is the structural facts extracted from block.py plus the residual oracle on the implementation',
+ASSUMPTIONS = ['executable correspondence at horizon 1 with two unknowns/targets (rational model, proved to zero both targets); larger horizons and more unknowns: structural facts extracted from block.py plus the residual oracle on the implementation',
                'determinacy / decay of truncation effects is a property of the economic model, not checked']
 HEADER = ''
 
 
+HEADER_GE = ('From Coq Require Import ZArith QArith Qcanon List Arith Bool.\nFrom SSJ Require Import Model.Chain Model.GE.\nImport ListNotations.\nOpen Scope nat_scope.\n')
+
+
+def gen_ge_model(rng):
+    """acyclic linear model (integer coefficients, contemporaneous) with inputs v0..v3: two of them are the unknowns, two later outputs the targets"""
+    names = [f'v{k}' for k in range(20)]
+    avail, blocks, nxt = names[:4], [], 4
+    for b in range(rng.randint(2, 4)):
+        ins = rng.sample(avail, rng.randint(2, min(3, len(avail))))
+        outs = {}
+        for _ in range(rng.randint(1, 2)):
+            outs[names[nxt]] = {i: rng.choice([-2, -1, 1, 2, 3]) for i in ins if rng.random() < 0.85} or {ins[0]: 1}
+            nxt += 1
+        blocks.append(dict(name=f'b{b}', ins=ins, outs=outs))
+        avail = avail + list(outs)
+    return blocks
+
+
 def correspondence(ctx):
-    return dict(evaluations=0, distinct_nontrivial=0, rule='none (abstract ring identities; see oracle)', samples=[], disagreements=[], stats={})
+    """Block.solve_jacobian at T = 1 on generated linear models vs the executable rational model (Model/GE.v)"""
+    from sequence_jacobian import combine
+    from fractions import Fraction
+    rng = ctx['rng']
+    n = 60 if ctx['tier'] == 'quick' else 500
+    specs = [gen_ge_model(rng) for _ in range(n)]
+    mod = M.write_linear_models(f'ge_{ctx["seed"]}_{ctx["tier"]}', specs)
+    idx = lambda v: int(v[1:])
+    cases, exprs = [], []
+    for mi, blocks in enumerate(specs):
+        objs = [getattr(mod, f'm{mi}_{b["name"]}') for b in blocks]
+        rng.shuffle(objs)
+        model = combine(objs, name=f'ge{mi}')
+        ins = [v for v in ('v0', 'v1', 'v2', 'v3') if v in model.inputs]
+        outs_all = [o for b in blocks for o in b['outs']]
+        if len(ins) < 3 or len(outs_all) < 2:
+            continue
+        U = rng.sample(ins, 2)
+        Z = [v for v in ins if v not in U]
+        Tg = rng.sample(outs_all, 2)
+        req = U + [o for o in outs_all if o not in Tg]
+        order = [b.name.split('_', 1)[1] for b in model.blocks]
+        bmap = {b['name']: b for b in blocks}
+        cb = []
+        for nm in order:
+            b = bmap[nm]
+            ents = [(idx(o), idx(i), c) for o, cs in b['outs'].items() for i, c in cs.items()]
+            cb.append(f'qblk {C.coq_list([idx(o) for o in b["outs"]], str)} {C.coq_list([idx(i) for i in b["ins"]], str)} ' + C.coq_list(ents, lambda e: f'(({e[0]}, {e[1]}), ({e[2]})%Z)'))
+        exprs.append(f'run_ge2 {C.coq_list(cb, lambda x: "(" + x + ")")} {idx(U[0])} {idx(U[1])} {idx(Tg[0])} {idx(Tg[1])} {C.coq_list([idx(z) for z in Z], str)} {C.coq_list([idx(o) for o in req], str)}')
+        cases.append(dict(blocks=blocks, listing=[o.name for o in objs], unknowns=U, targets=Tg, exogenous=Z, outputs=req, model=model))
+    vals, logs = C.eval_in_coq('C05', HEADER_GE, exprs, chunk=60)
+    dis, stats = [], dict(singular=0, solved=0)
+    for c, vm in zip(cases, vals):
+        model = c.pop('model')
+        ss = model.steady_state({e: 1.0 for e in model.inputs})
+        if vm is None or vm == 'None':
+            m = None if not logs else 'ERR'          # Coq's None: singular target-unknown Jacobian
+        else:
+            body = vm[1] if isinstance(vm, tuple) and len(vm) == 2 and vm[0] == 'Some' else vm
+            m = [[Fraction(int(x[0]), int(x[1])) for x in col] for col in body]
+        try:
+            G = model.solve_jacobian(ss, c['unknowns'], c['targets'], c['exogenous'], outputs=c['outputs'], T=1)
+            got = [[float(dmat(G, o, z, 1)[0, 0]) for o in c['outputs']] for z in c['exogenous']]
+        except Exception as ex:
+            got = f'raised {type(ex).__name__}: {str(ex)[:150]}'
+        if m is None:
+            stats['singular'] += 1      # singular target-unknown Jacobian: the implementation may raise or return garbage; not compared
+            continue
+        stats['solved'] += 1
+        ok = m != 'ERR' and not isinstance(got, str) and all(abs(g - float(e)) <= 1e-9 * max(1.0, abs(float(e))) for gc, ec in zip(got, m) for g, e in zip(gc, ec))
+        if not ok:
+            dis.append(dict(what='Block.solve_jacobian (T=1, two unknowns/targets) differs from the executable rational model', case=c, impl=got,
+                            model=None if m == 'ERR' else [[str(e) for e in col] for col in m]))
+    for l in logs:
+        dis.append(dict(what='coq evaluation failed', log=l))
+    return dict(evaluations=len(cases), distinct_nontrivial=len({C.canon(c['blocks']) for c in cases}),
+                rule='generated acyclic linear models (integer coefficients, T = 1, shuffled listing): random choice of two unknowns among the inputs and two targets among the outputs; '
+                     'solve_jacobian for all remaining inputs and outputs vs the rational model (explicit 2x2 inverse + chain rule), compared to 1e-9 (the implementation uses a floating LU)',
+                samples=[{k: v for k, v in c.items()} for c in cases[:1]], disagreements=dis, stats=stats)
 
 
 def dmat(J, o, i, T):
@@ -85,6 +162,8 @@ def check(rng, override=None):
 def oracle(ctx, hints, broken):
     try:
         viol, n = check(ctx['rng'])
+        v3, n3 = M.check_shift_ge(ctx['rng'], 12 if ctx['tier'] == 'quick' and not broken else 80, False, 'c05')
+        viol, n = viol + v3, n + n3
         skipped = 0
         if ctx['tier'] == 'thorough' or broken:
             for _ in range(6):
@@ -104,7 +183,7 @@ def oracle(ctx, hints, broken):
     for v in viol:
         C.push(out, v)
     return dict(evaluations=n, violations=out,
-                rule='5-block forward-looking model with 2 unknowns/targets and 3 exogenous inputs, T in {6, 25}: target residual H_U G_U + H_Z, chain-rule totals, '
+                rule='generated linear models with leads and lags of different depths (upstream lead->lag chain): solve_jacobian and solve_impulse_linear vs a dense reference; 5-block forward-looking model with 2 unknowns/targets and 3 exogenous inputs, T in {6, 25}: target residual H_U G_U + H_Z, chain-rule totals, '
                      'requested-output subsets, supplied factorisations (same and reversed target order), linear impulses vs G @ shock (incl. a shock reaching only the '
                      'last target), additivity')
 
